@@ -104,7 +104,10 @@ theorem mu_step (cfg : Cfg H) (s : Store H) (t : Thread H) (h : ¬ t.isDone = tr
     · split <;> simp [Pc.mu]
   | readParent =>
     simp only [stepThread]
-    split <;> simp [Pc.mu]
+    split
+    · simp [Pc.mu]
+    · split <;> simp [Pc.mu]
+    · simp [Pc.mu]
   | readAtHeight r =>
     simp only [stepThread]
     split
@@ -172,7 +175,12 @@ theorem step_not_start (cfg : Cfg H) (s : Store H) (t : Thread H) : (stepThread 
     split
     · rfl
     · split <;> rfl
-  | readParent => simp only [stepThread]; split <;> rfl
+  | readParent =>
+    simp only [stepThread]
+    split
+    · rfl
+    · split <;> rfl
+    · rfl
   | readAtHeight r =>
     simp only [stepThread]
     split
@@ -202,7 +210,12 @@ theorem step_x (cfg : Cfg H) (s : Store H) (t : Thread H) : (stepThread cfg s t)
     split
     · rfl
     · split <;> rfl
-  | readParent => simp only [stepThread]; split <;> rfl
+  | readParent =>
+    simp only [stepThread]
+    split
+    · rfl
+    · split <;> rfl
+    · rfl
   | readAtHeight r =>
     simp only [stepThread]
     split
@@ -229,7 +242,13 @@ theorem step_one_write (cfg : Cfg H) (s : Store H) (t : Thread H) :
     split
     · rfl
     · split <;> rfl
-  | readParent => left; simp only [stepThread]; split <;> rfl
+  | readParent =>
+    left
+    simp only [stepThread]
+    split
+    · rfl
+    · split <;> rfl
+    · rfl
   | readAtHeight r =>
     left
     simp only [stepThread]
@@ -350,7 +369,7 @@ def Sim (cfg : Cfg H) (s : Store H) (x : Src H) (p : Store H × Thread H) : Prop
   match p.2.pc with
   | .start => p.1 = s
   | .readParent => p.1 = s ∧ Fresh cfg s x
-  | .readAtHeight r => p.1 = s ∧ Fresh cfg s x ∧ r = mkRow cfg s x ∧ r.st = .lc
+  | .readAtHeight r => p.1 = s ∧ Fresh cfg s x ∧ r = mkRow cfg s x ∧ r.st = .lc ∧ r.work ≠ 0
   | .readTip r => p.1 = s ∧ Fresh cfg s x ∧ r = mkRow cfg s x ∧ concurrent s r = true
   | .readStale r => p.1 = s ∧ Fresh cfg s x ∧ concurrent s (mkRow cfg s x) = true ∧
       (∃ tip, getTip s = some tip ∧ tip.cum < (mkRow cfg s x).cum) ∧ r = setSt (mkRow cfg s x) .lc
@@ -401,11 +420,15 @@ theorem sim_step {cfg : Cfg H} {s : Store H} {x : Src H} {p : Store H × Thread 
       have hc : concurrent s' (mkRow cfg s' x') = false := by simp [concurrent, hst]
       exact sim_enter (pre := []) (plan_plain hd hf hc) allSet_nil rfl fresh
     · rename_i hst
-      exact ⟨rfl, rfl, ⟨hd, hf⟩, rfl, hst⟩
+      split
+      · rename_i hwk
+        exact ⟨rfl, rfl, ⟨hd, hf⟩, rfl, concurrent_zero_work hst hwk⟩
+      · rename_i hwk
+        exact ⟨rfl, rfl, ⟨hd, hf⟩, rfl, hst, hwk⟩
     · rename_i hst
       exact ⟨rfl, rfl, ⟨hd, hf⟩, rfl, concurrent_stale hst⟩
   | readAtHeight r =>
-    obtain ⟨rfl, ⟨hd, hf⟩, rfl, hst⟩ := h
+    obtain ⟨rfl, ⟨hd, hf⟩, rfl, hst, hwk⟩ := h
     have fresh := byHash_not_isSome hd
     simp only [stepThread]
     split
@@ -413,14 +436,14 @@ theorem sim_step {cfg : Cfg H} {s : Store H} {x : Src H} {p : Store H × Thread 
       split
       · rename_i hne
         refine ⟨rfl, rfl, ⟨hd, hf⟩, rfl, ?_⟩
-        simp [concurrent, hst, e, hne]
+        simp [concurrent, hst, hwk, e, hne]
       · rename_i hne
         have hc : concurrent s' (mkRow cfg s' x') = false := by
           simp only [concurrent, hst, e]
-          simpa using hne
+          simpa [hwk] using hne
         exact sim_enter (pre := []) (plan_plain hd hf hc) allSet_nil rfl fresh
     · rename_i e
-      exact sim_enter (pre := []) (plan_plain hd hf (concurrent_lc_none hst e)) allSet_nil rfl fresh
+      exact sim_enter (pre := []) (plan_plain hd hf (concurrent_lc_none hst hwk e)) allSet_nil rfl fresh
   | readTip r =>
     obtain ⟨rfl, ⟨hd, hf⟩, rfl, hc⟩ := h
     have fresh := byHash_not_isSome hd
